@@ -1664,7 +1664,13 @@ class Array:
             res = res.itranspose(transp)
             inv_transp = inverse_permutation(transp)
             tr_combine_legs = [[inv_transp[a] for a in cl] for cl in combine_legs]
-            return res.combine_legs(tr_combine_legs, new_axes=new_axes, pipes=pipes)
+            res = res.combine_legs(tr_combine_legs, new_axes=new_axes, pipes=pipes)
+            # legs which are not combined inherit their (possibly unset) label from self
+            non_combined_legs = [a for a in range(self.rank) if a not in all_combine_legs]
+            non_new_axes = [i for i in range(res.rank) if i not in new_axes]
+            for i, a in zip(non_new_axes, non_combined_legs):
+                res._labels[i] = self._labels[a]
+            return res
         # if we come here, combine_legs has the form of `tr_combine_legs`.
         # HERE we have the standard form of arguments
 
@@ -1679,6 +1685,7 @@ class Array:
         )  # convert to array for index tricks
         # get new labels
         pipe_labels = [self._combine_leg_labels([labels[c] for c in cl]) for cl in combine_legs]
+        labels = self._labels[:]  # legs which are not combined inherit their (possibly unset) label
         for na, p, plab in zip(new_axes, pipes, pipe_labels):
             labels[na : na + p.nlegs] = [plab]
 
